@@ -314,5 +314,7 @@ func TestC12Conn(t *testing.T) {
 			}
 		}
 	}
-	run.Main(t, "C12", cases, map[string]any{"layer": "connection-level receiver", "permutation_cap": map[bool]int{false: 720, true: 5040}[env.Thorough()]})
+	wire := wireCases(p, env.Thorough(), env.Seed+1)
+	cases = append(cases, wire...)
+	run.Main(t, "C12", cases, map[string]any{"wire_sender_cases": len(wire), "layer": "connection-level receiver + wire-level sender", "permutation_cap": map[bool]int{false: 720, true: 5040}[env.Thorough()]})
 }
